@@ -136,6 +136,29 @@ Theorem C03_when_all_join_once : forall n cs sched, n > 0 ->
 Proof. exact when_all_join_once. Qed.
 Print Assumptions C03_when_all_join_once.
 
+(* ... and what the concurrent join reports is one of the completions den admits for when_all
+   over children completing with [cs 0 .. cs (n-1)] (ties Part 2 to the set semantics of Part 1) *)
+Theorem C03_join_in_den : forall n cs first,
+  (first = None <-> forall u, u < n -> is_val (cs u) = true) ->
+  (forall f, first = Some f -> f < n /\ is_val (cs f) = false) ->
+  In (w_expected n cs first) (join_den (map cs (seq 0 n))).
+Proof. exact join_in_den. Qed.
+Print Assumptions C03_join_in_den.
+
+(* the model is sensitive to the protocol: without the re-check of predecessor_done under the
+   lock, or without the predecessor's empty critical section, a consumer is never signalled *)
+Theorem C03_handoff_recheck_needed :
+  exists sched, let st := run (h_tstep_norecheck HSplit (CVal [1%N])) sched (h_init HSplit, h_locals) in
+    snd st 0 = PEnd /\ snd st 1 = CEnd /\ h_log (fst st) = [] /\ h_conts (fst st) = [1].
+Proof. exact recheck_needed. Qed.
+Print Assumptions C03_handoff_recheck_needed.
+
+Theorem C03_handoff_pred_lock_needed :
+  exists sched, let st := run (h_tstep_nopredlock HSplit (CVal [1%N])) sched (h_init HSplit, h_locals) in
+    snd st 0 = PEnd /\ snd st 1 = CEnd /\ h_log (fst st) = [] /\ h_conts (fst st) = [1].
+Proof. exact pred_lock_needed. Qed.
+Print Assumptions C03_handoff_pred_lock_needed.
+
 (* non-vacuity: consumer 1 has passed the first flag test when the predecessor completes and
    re-checks under the lock; consumer 2 stores a continuation before; consumer 3 comes late *)
 Example C03_example_handoff :
